@@ -249,6 +249,11 @@ theorem c02_src_descriptors (r : Nat) (exotic : Bool) (mask b : Nat) :
       by_cases h : b % 8 = 0 <;> simp [h] <;> omega
     rw [this]
 
+/-- concrete values of the regenerated definitions on the gap mask 0b101. -/
+example : Generated.lmLevel 5 = 3 ∧ Generated.lmHashIndex 5 = 2 ∧ Generated.lmApply 7 2 = 3 ∧
+    Generated.lmIsSignificant 5 2 = false ∧ Generated.lmIsSignificant 5 3 = true ∧ Generated.prunedDepthOff 2 1 = 68 := by
+  decide +kernel
+
 end Src
 
 end TonVerif.Properties.C02
